@@ -165,3 +165,63 @@ def noAssign (p : List Op) : Bool := p.all fun op => !op.isAssign
 def noUninit (p : List Op) : Bool := (oracle p).all fun r => r.kind != .uninit
 
 end Cppcheck.LeakStraight
+
+/-
+Allocation groups: lib/library.cpp `Library::load`, `<memory>` / `<resource>` blocks.  Which deallocator matches which allocator
+(`mismatchAllocDealloc`, and whether `free(p)` releases what `strdup` returned) is decided by the group id a block's functions get:
+a block *joins* the group of the first of its `<dealloc>` names that is already registered — scanning **all** its `<dealloc>`
+elements in document order, the names of one element in order — and otherwise takes a fresh id (even for `<memory>`, odd for
+`<resource>`: `ismemory` / `isresource`); then every `<alloc>` name and every `<dealloc>` name of the block is (re)registered with
+that id (`map[n] = temp` overwrites an earlier registration of the same name).
+-/
+namespace Cppcheck.LibGroups
+
+structure Block where
+  resource : Bool
+  allocs : List String
+  deallocs : List (List String)      -- one list of names per `<dealloc>` element
+  deriving DecidableEq, Repr, Inhabited
+
+structure LibState where
+  allocId : Nat                       -- `mData->mAllocId`
+  alloc : List (String × Nat)         -- `mData->mAlloc`   (name ↦ groupId; the first entry for a name is the current one)
+  dealloc : List (String × Nat)       -- `mData->mDealloc`
+  deriving Repr, Inhabited
+
+def empty : LibState := { allocId := 0, alloc := [], dealloc := [] }
+
+/-- `while (!ismemory(++mAllocId)) {}` / `while (!isresource(++mAllocId)) {}`: the next even resp. odd id -/
+def nextId (cur : Nat) (resource : Bool) : Nat :=
+  if resource then (if cur % 2 == 0 then cur + 1 else cur + 2) else (if cur % 2 == 0 then cur + 2 else cur + 1)
+
+/-- the first already registered name among the names of all `<dealloc>` elements, in order -/
+def firstKnown (dealloc : List (String × Nat)) : List String → Option Nat
+  | [] => none
+  | n :: r => match dealloc.lookup n with
+    | some g => some g
+    | none => firstKnown dealloc r
+
+def Block.deallocNames (b : Block) : List String := b.deallocs.flatten
+
+/-- the id the block's functions are registered with, and the new counter -/
+def groupFor (st : LibState) (b : Block) : Nat × Nat :=
+  match firstKnown st.dealloc b.deallocNames with
+  | some g => (g, st.allocId)
+  | none => (nextId st.allocId b.resource, nextId st.allocId b.resource)
+
+def loadBlock (st : LibState) (b : Block) : LibState :=
+  let (g, counter) := groupFor st b
+  { allocId := counter,
+    alloc := b.allocs.map (fun n => (n, g)) ++ st.alloc,
+    dealloc := b.deallocNames.map (fun n => (n, g)) ++ st.dealloc }
+
+def load (st : LibState) (blocks : List Block) : LibState := blocks.foldl loadBlock st
+
+def allocGroup (st : LibState) (n : String) : Option Nat := st.alloc.lookup n
+def deallocGroup (st : LibState) (n : String) : Option Nat := st.dealloc.lookup n
+
+/-- every already registered dealloc name of the block is registered with group `g` -/
+def knownAllIn (st : LibState) (b : Block) (g : Nat) : Bool :=
+  b.deallocNames.all fun n => match st.dealloc.lookup n with | some g' => g' == g | none => true
+
+end Cppcheck.LibGroups
